@@ -184,6 +184,47 @@ theorem broadcast_raises_only_if_impossible (a b : Shape) (sa sb : List Nat)
 theorem broadcast_unknown_rank (b : Shape) : broadcast none b = some none ∧ broadcast b none = some none := by
   cases b <;> simp [broadcast]
 
+
+/-! ## Operand spellings (simple format) and operand order -/
+
+/-- Reading a shape back from its own simple form is the identity (`Shape.from_simple ∘ to_simple`):
+    every shape has a simple spelling, and that spelling denotes it. -/
+theorem fromSimple_toSimple (s : Shape) : Shape.fromSimple (Shape.toSimple s) = s :=
+  shape_simple_roundtrip s
+
+/-- **The answer does not depend on the spelling of the operand**: a `Shape` object and its simple
+    form (tuple / `None`) give the same `broadcast`. -/
+theorem broadcastArg_spelling (a s : Shape) :
+    broadcastArg a (.simple (Shape.toSimple s)) = broadcastArg a (.shape s) := by
+  simp only [broadcastArg, ShapeArg.resolve, shape_simple_roundtrip]
+
+/-- More generally, two arguments that denote the same shape are treated the same. -/
+theorem broadcastArg_congr (a : Shape) (o₁ o₂ : ShapeArg) (h : o₁.resolve = o₂.resolve) :
+    broadcastArg a o₁ = broadcastArg a o₂ ∧ canBroadcast a o₁ = canBroadcast a o₂ := by
+  simp only [canBroadcast, broadcastArg, h, and_self]
+
+/-- **`None` in the simple format is the unknown rank, not an absent operand**: the result is the
+    unknown rank too (which every runtime shape conforms to), whatever `self` is. -/
+theorem broadcastArg_none (a : Shape) :
+    broadcastArg a (.simple none) = some none ∧ broadcastArg a (.shape none) = some none := by
+  cases a <;> simp [broadcastArg, ShapeArg.resolve, Shape.fromSimple, broadcast]
+
+/-- Soundness for every spelling of the operand: the claim is never contradicted by conforming values. -/
+theorem broadcastArg_sound (a c : Shape) (o : ShapeArg) (sa sb s : List Nat)
+    (h : broadcastArg a o = some c) (ha : confShape sa a) (hb : confShape sb o.resolve)
+    (hs : npBroadcast sa sb = some s) : confShape s c :=
+  broadcast_sound a o.resolve c sa sb s h ha hb hs
+
+/-- ... and `ShapeError` / `can_broadcast = False` only when no conforming values could broadcast. -/
+theorem canBroadcast_false_only_if_impossible (a : Shape) (o : ShapeArg) (sa sb : List Nat)
+    (h : canBroadcast a o = false) (ha : confShape sa a) (hb : confShape sb o.resolve) :
+    npBroadcast sa sb = none := by
+  apply broadcast_raises_only_if_impossible a o.resolve sa sb _ ha hb
+  simpa [canBroadcast, broadcastArg] using h
+
+/-- **Both operand orders give the same answer.** -/
+theorem broadcast_comm (a b : Shape) : broadcast a b = broadcast b a := Types.broadcast_comm a b
+
 /-! ## Non-vacuity -/
 
 -- int64 (class of `Tensor(np.int64)`) has an inhabitant among the generated spellings
@@ -193,6 +234,11 @@ example : broadcast (some [.const 2, .unk "N", .const 1]) (some [.const 3, .unk 
     = some (some [.const 2, .const 3, .unk ""]) := by decide
 example : broadcast (some [.const 2]) (some [.const 3]) = none := by decide
 example : npBroadcast [2, 1, 3] [4, 1] = some [2, 4, 3] := by decide
+-- the spellings `(2, 'N', None)` and `(2, 'N', '')` denote one shape; `None` denotes the unknown rank
+example : Shape.fromSimple (some [.int 2, .str "N", .none]) = Shape.fromSimple (some [.int 2, .str "N", .str ""]) := by decide
+example : broadcastArg (some [.const 2]) (.simple none) = some none := by decide
+example : broadcastArg (some [.const 2, .const 1]) (.simple (some [.str "N"])) = some (some [.const 2, .unk "N"]) := by decide
+example : canBroadcast (some [.const 2]) (.simple (some [.int 3])) = false := by decide
 example : compat (.seq (.tensor 7 (some [.const 2]))) (.seq (.tensor 7 (some [.unk "N"]))) = true := by decide
 example : compat (.tensor 7 (some [.const 2])) (.tensor 7 (some [.const 3])) = false := by decide
 
